@@ -101,7 +101,8 @@ func c11Run(w *Worker, tape *simrt.Tape) *Outcome {
 			for k := 0; k < 1+ch(3); k++ {
 				ofx, err := w.fixture(be, curve, (slot+1+k)%w.paramInt("slots", 64), c11Feat, false)
 				if err == nil {
-					if _, _, err := compileWith(ofx.Prog, be, curve); err != nil {
+					// the other compilations use other options: nothing of theirs may leak
+					if _, _, err := compileWith(ofx.Prog, be, curve, noiseOpts(tape, o)...); err != nil {
 						o.violate("recompile-failed", "recompile-failed:"+where, err.Error())
 						return o
 					}
@@ -156,6 +157,7 @@ func c11Run(w *Worker, tape *simrt.Tape) *Outcome {
 			want []byte
 			got  []byte
 			err  error
+			opts []frontend.CompileOption
 		}
 		jobs := make([]*job, n)
 		for i := range jobs {
@@ -164,6 +166,11 @@ func c11Run(w *Worker, tape *simrt.Tape) *Outcome {
 				ofx, err := w.fixture(be, curve, (slot+i)%w.paramInt("slots", 64), c11Feat, false)
 				if err == nil {
 					jobs[i] = &job{prog: ofx.Prog, want: ofx.CCSBytes}
+					if ch(2) == 0 {
+						// a neighbour compiling with other options (its own output is not compared)
+						jobs[i].opts = noiseOpts(tape, o)
+						jobs[i].want = nil
+					}
 				}
 			}
 		}
@@ -173,7 +180,7 @@ func c11Run(w *Worker, tape *simrt.Tape) *Outcome {
 				j := j
 				simrt.Go(func() {
 					defer func() { done <- struct{}{} }()
-					j.got, _, j.err = compileWith(j.prog, be, curve)
+					j.got, _, j.err = compileWith(j.prog, be, curve, j.opts...)
 				})
 			}
 			for range jobs {
@@ -193,7 +200,7 @@ func c11Run(w *Worker, tape *simrt.Tape) *Outcome {
 				o.violate("recompile-failed", "recompile-failed:"+where+":concurrent", fmt.Sprintf("compilation %d failed: %v", i, j.err))
 				return o
 			}
-			if !bytes.Equal(j.got, j.want) {
+			if j.want != nil && !bytes.Equal(j.got, j.want) {
 				o.violate("nondeterministic-compile", "nondeterministic-compile:"+where+":concurrent", fmt.Sprintf("concurrent compilation %d of %d gave different bytes (%d vs %d)\ncase: %s\nprog: %s", i, n, len(j.got), len(j.want), o.Desc, j.prog))
 				o.Viol.Trace = res.Trace
 				return o
@@ -208,6 +215,23 @@ func c11Run(w *Worker, tape *simrt.Tape) *Outcome {
 		o.Sample = map[string]any{"case": o.Desc, "bytes": len(fx.CCSBytes), "constraints": fx.NbCons}
 	}
 	return o
+}
+
+// noiseOpts draws compile options for compilations that happen around the one under test.
+func noiseOpts(tape *simrt.Tape, o *Outcome) []frontend.CompileOption {
+	var opts []frontend.CompileOption
+	switch tape.Choose(simrt.SWorkload, 4) {
+	case 0:
+		opts = append(opts, frontend.WithCompressThreshold([]int{2, 10, 50, 1000}[tape.Choose(simrt.SWorkload, 4)]))
+		o.fault("neighbour_compress_threshold")
+	case 1:
+		opts = append(opts, frontend.WithCapacity(1+tape.Choose(simrt.SWorkload, 100000)))
+		o.fault("neighbour_capacity")
+	case 2:
+		opts = append(opts, frontend.IgnoreUnconstrainedInputs(), frontend.WithCompressThreshold(5))
+		o.fault("neighbour_compress_threshold")
+	}
+	return opts
 }
 
 func init() {
